@@ -7,8 +7,14 @@ class C18(Prop):
     id = "C18"
     title = "Configuration file and command line reach the procedures unchanged"
     lean_module = "Stgutg.Props.C18"
-    gen = ["wiring"]
-    theorems = ["Stgutg.Props.C18." + t for t in [
+    extra_modules = ["Stgutg.Props.C01Transport", "Stgutg.Proofs.GenTieMin"]
+    gen = ["wiring", "transport", "pure-min"]
+    theorems = ["Stgutg.Props.C01Transport." + t for t in [
+        # the two addresses and two ports, once received by ConnectToAmf, reach sctp.DialSCTP as remote / local endpoint unchanged
+        # (the resolved address is appended as it is: `*ip`, zone included)
+        "C01_transport_facts", "C01_transport_endpoints"]] + [
+        # stgutg.Min (the clamps of the five repetition counts) tied by translation
+        "Stgutg.Proofs.GenTie.Min.Min_eq_config"] + ["Stgutg.Props.C18." + t for t in [
         "C18_keys", "C18_keys_spec", "C18_readme_keys",
         "C18_wiring", "C18_wiring_params", "C18_wiring_complete",
         "C18_repetitions", "C18_repetitions_complete", "goMin_spec", "C18_every_key_reaches",
